@@ -17,7 +17,7 @@ from concurrent.futures import ThreadPoolExecutor
 from lib import common, fixgen
 
 LEVEL = 'model_checking'
-HDR = [49, 56, 34, 52, 5001, 1128, 50]
+HDR = [49, 56, 34, 52, 5001, 1128, 50, 115, 43, 369]       # 115, 43, 369: hard-coded header tags the synthetic transport dictionary does not declare
 BODY = [11, 55, 58, 9999, 38]
 TRL = [93, 5002]
 VALS = ['a', 'x=y', '1', 'IBM', 'v' * 60, 'caf\xe9', ' ']
